@@ -137,9 +137,10 @@ Section Sorting.
   Fixpoint insert_sorted (x : A) (l : list A) : list A :=
     match l with
     | [] => [x]
-    | y :: r => if ltb x y then x :: l else y :: insert_sorted x r
+    | y :: r => if ltb y x then y :: insert_sorted x r else x :: l
     end.
-  (* stable insertion sort: equal keys keep their order *)
+  (* stable insertion sort: equal keys keep their order (fold_right inserts the last element
+     first, and an element goes in front of the equal ones already there) *)
   Definition sort_by (l : list A) : list A := fold_right insert_sorted [] l.
 End Sorting.
 
